@@ -270,3 +270,41 @@ Proof.
   rewrite (Rlt_bool_true _ _ B) in C. destruct C as (C1 & C2 & _).
   subst d. split; [rewrite C2; exact X2 | rewrite C1; reflexivity].
 Qed.
+
+(* the seeded PRNG's draw: rand 0.9 computes `(next_u64 >> 11) as f64 * (1.0 / (1u64 << 53) as f64)`, a multiplication
+   by the representable constant 2^-53: again exactly k * 2^-53 *)
+Definition two_m53 : binary64 := binary_normalize 53 1024 Hprec Hemax BinarySingleNaN.mode_NE 1 (-53) false.
+
+Lemma two_m53_exact : B2R 53 1024 two_m53 = bpow radix2 (-53) /\ is_finite 53 1024 two_m53 = true.
+Proof.
+  unfold two_m53.
+  pose proof (binary_normalize_correct 53 1024 Hprec Hemax BinarySingleNaN.mode_NE 1 (-53) false) as C.
+  assert (V : F2R (Float radix2 1 (-53)) = bpow radix2 (-53)) by (unfold F2R; cbn [Fnum Fexp]; lra).
+  rewrite (round_generic radix2 _ _ _ (small_generic 1 (-53) ltac:(reflexivity) ltac:(lia))) in C.
+  assert (B : (Rabs (F2R (Float radix2 1 (-53))) < bpow radix2 1024)%R).
+  { rewrite V, Rabs_pos_eq by apply bpow_ge_0. apply bpow_lt. lia. }
+  rewrite (Rlt_bool_true _ _ B) in C. destruct C as (C1 & C2 & _). rewrite C1, V. split; [reflexivity | exact C2].
+Qed.
+
+Theorem draw_exact_mul : forall k mult_nan, (k < 2 ^ 53)%N ->
+  let d := Bmult 53 1024 Hprec Hemax mult_nan BinarySingleNaN.mode_NE (of_int (Z.of_N k)) two_m53 in
+  is_finite 53 1024 d = true /\ B2R 53 1024 d = draw_R k.
+Proof.
+  intros k mult_nan Hk d.
+  assert (Hk' : Z.abs (Z.of_N k) < 2 ^ 53).
+  { rewrite Z.abs_eq by lia. change (2 ^ 53) with (Z.of_N (2 ^ 53)). apply N2Z.inj_lt. exact Hk. }
+  destruct (of_int_exact (Z.of_N k) (or_introl Hk')) as [X1 X2].
+  destruct two_m53_exact as [Y1 Y2].
+  pose proof (Bmult_correct 53 1024 Hprec Hemax mult_nan BinarySingleNaN.mode_NE (of_int (Z.of_N k)) two_m53) as C.
+  rewrite X1, Y1 in C.
+  assert (Q : (IZR (Z.of_N k) * bpow radix2 (-53) = F2R (Float radix2 (Z.of_N k) (-53)))%R) by reflexivity.
+  rewrite Q in C.
+  rewrite (round_generic radix2 _ _ _ (small_generic (Z.of_N k) (-53) Hk' ltac:(lia))) in C.
+  assert (B : (Rabs (F2R (Float radix2 (Z.of_N k) (-53))) < bpow radix2 1024)%R).
+  { unfold F2R. cbn [Fnum Fexp]. rewrite Rabs_mult, <- abs_IZR, (Rabs_pos_eq (bpow radix2 (-53))) by apply bpow_ge_0.
+    apply Rlt_trans with (IZR (2 ^ 53) * bpow radix2 (-53))%R.
+    - apply Rmult_lt_compat_r; [apply bpow_gt_0 | apply IZR_lt; exact Hk'].
+    - rewrite IZR_2_53. rewrite <- bpow_plus. apply bpow_lt. lia. }
+  rewrite (Rlt_bool_true _ _ B) in C. destruct C as (C1 & C2 & _).
+  subst d. split; [rewrite C2, X2, Y2; reflexivity | rewrite C1; reflexivity].
+Qed.
